@@ -1,11 +1,16 @@
 import GoaVerif.Model.Validation
+import GoaVerif.Generated.FactsValCode
 /-!
 # C04 — validations gate user code: property theorems over the specification
 `GoaVerif.Model.Validation` is the *specification* of the design's constraints, tied to the
 generated servers and clients by execution (tie T5: `vlib/c04.py` sends boundary values through
-generated code and compares "method invoked / error name" with `handle`). No model of the code
-generator is proved equal to it here (planned `gen_correct`, see DESIGN.md): the theorems below
-pin down the semantics the specification gives to each keyword and its recursive closure.
+generated code and compares "method invoked / error name" with `handle`). The last section ties the
+single-keyword checks of the code generator to the specification by proof: the checks
+`codegen.AttributeValidationCode` emits are extracted from /repo in every run (tie T2,
+`Generated/FactsValCode.lean`: the generator is run on one attribute per kind x keyword x pointer cell and
+its output parsed) and proved to fire exactly when the specification says the rule is broken, for every
+value and bound. The recursive assembly of the checks (objects, arrays, maps, user types) is tied by
+execution only.
 -/
 namespace GoaVerif.Props.C04
 open GoaVerif.Validation
@@ -105,5 +110,76 @@ example : handle 8 exAtt (.obj [("items", .arr [.obj [("qty", .num ⟨10, 1⟩)]
 example : handle 8 exAtt (.obj [("items", .arr [.obj [("qty", .num ⟨9, 1⟩)]])]) matches .called := by decide
 example : handle 8 exAtt (.obj [("items", .arr [])]) matches .rejected .invalidLength _ := by decide
 example : handle 8 exAtt (.obj []) matches .rejected .missingField _ := by decide
+
+/-! ### the checks the generator emits (regenerated table) meet the specification -/
+
+section emitted
+open GoaVerif.Generated.FactsValCode
+
+/-- meaning of an emitted comparison -/
+def fires (op : String) (x b : Int) : Bool :=
+  if op = "<" then decide (x < b) else if op = "<=" then decide (x ≤ b)
+  else if op = ">" then decide (x > b) else if op = ">=" then decide (x ≥ b) else false
+
+def opOf (kw : String) : String :=
+  if kw = "min" ∨ kw = "minlen" then "<" else if kw = "max" ∨ kw = "maxlen" then ">"
+  else if kw = "exmin" then "<=" else ">="
+
+/-- shape of every emitted range check: it compares the value itself with the operator of its keyword,
+    reports an InvalidRangeError, and is wrapped in a nil guard exactly when the attribute is a pointer -/
+theorem range_checks_shape : ∀ c ∈ checks, c.kw ∈ ["min", "max", "exmin", "exmax"] →
+    c.lhs = "val" ∧ c.op = opOf c.kw ∧ c.errFn = "InvalidRangeError" ∧ c.guard = c.pointer := by
+  decide +kernel
+
+/-- shape of every emitted length check: strings are measured in runes, bytes / arrays / maps with `len` -/
+theorem length_checks_shape : ∀ c ∈ checks, c.kw ∈ ["minlen", "maxlen"] →
+    c.lhs = (if c.kind = "string" then "runes" else "len") ∧ c.op = opOf c.kw ∧ c.errFn = "InvalidLengthError" := by
+  decide +kernel
+
+/-- every (kind, keyword, pointer) cell of the table is present: 3 numeric kinds x 4 keywords and
+    4 sized kinds x 2 keywords, each with and without pointer -/
+theorem checks_table_complete : checks.length = 40 ∧
+    (∀ k ∈ ["int", "float", "uint"], ∀ kw ∈ ["min", "max", "exmin", "exmax"], ∀ p ∈ [true, false],
+      ∃ c ∈ checks, c.kind = k ∧ c.kw = kw ∧ c.pointer = p) ∧
+    (∀ k ∈ ["string", "bytes", "array", "map"], ∀ kw ∈ ["minlen", "maxlen"], ∀ p ∈ [true, false],
+      ∃ c ∈ checks, c.kind = k ∧ c.kw = kw ∧ c.pointer = p) := by
+  decide +kernel
+
+def rulesOf (kw : String) (b : Int) : Rules :=
+  if kw = "min" then { min := some ⟨b, 1⟩ } else if kw = "max" then { max := some ⟨b, 1⟩ }
+  else if kw = "exmin" then { exMin := some ⟨b, 1⟩ } else { exMax := some ⟨b, 1⟩ }
+
+/-- **The emitted range checks are correct.** For every entry of the regenerated table with a range
+    keyword, every integer value and every bound: the emitted comparison fires iff the specification
+    reports a broken rule. (`minimum_is_inclusive` etc. above say what the specification means.) -/
+theorem emitted_range_check_correct (c : Check) (hc : c ∈ checks)
+    (hk : c.kw ∈ ["min", "max", "exmin", "exmax"]) (x b : Int) :
+    fires c.op x b = true ↔ rangeViol (rulesOf c.kw b) ⟨x, 1⟩ ≠ [] := by
+  have hs := (range_checks_shape c hc hk).2.1
+  rw [hs]
+  simp only [List.mem_cons, List.mem_singleton, List.not_mem_nil, or_false] at hk
+  rcases hk with h | h | h | h <;> rw [h] <;>
+    simp [fires, opOf, rulesOf, rangeViol, Rat'.lt, Rat'.le] <;> omega
+
+def lenRules (kw : String) (m : Nat) : Rules :=
+  if kw = "minlen" then { minLen := some m } else { maxLen := some m }
+
+/-- **The emitted length checks are correct**: they fire iff the measured length breaks the rule. -/
+theorem emitted_length_check_correct (c : Check) (hc : c ∈ checks) (hk : c.kw ∈ ["minlen", "maxlen"]) (n m : Nat) :
+    fires c.op n m = true ↔ lengthViol (lenRules c.kw m) n ≠ [] := by
+  have hs := (length_checks_shape c hc hk).2.1
+  rw [hs]
+  simp only [List.mem_cons, List.mem_singleton, List.not_mem_nil, or_false] at hk
+  rcases hk with h | h <;> rw [h] <;> simp [fires, opOf, lenRules, lengthViol] <;> omega
+
+/-- **Known finding (witness in the regenerated table).** The length check of an array, map or byte
+    string is NOT wrapped in a nil guard even when the attribute may be absent: `len(nil) < min` holds, so
+    an absent optional collection with MinLength >= 1 is reported invalid
+    (`request/absent-optional-collection-with-min-length-rejected`). Strings are guarded. -/
+theorem optional_collection_check_unguarded :
+    (∀ c ∈ checks, c.kw = "minlen" → c.pointer = true → (c.guard = true ↔ c.kind = "string")) := by
+  decide +kernel
+
+end emitted
 
 end GoaVerif.Props.C04
